@@ -13,6 +13,7 @@ package c17
 
 import (
 	"bytes"
+	"context"
 	"crypto/sha256"
 	"encoding/hex"
 	"encoding/json"
@@ -26,6 +27,7 @@ import (
 	"strings"
 	"sync"
 	"testing"
+	"time"
 
 	"github.com/btcsuite/btcd/wire"
 	"github.com/elastos/Elastos.ELA/common"
@@ -382,12 +384,17 @@ func tearNewestBlockFile(dir string, n int) {
 	_ = f.Close()
 }
 
+// childTimeout only catches hangs; a child normally runs well under a second.
+const childTimeout = 10 * time.Minute
+
 func runChild(mode, dir, histPath, out string, target int) (int, string) {
 	bin := os.Getenv("VERIF_BIN")
 	if bin == "" {
 		bin = os.Args[0]
 	}
-	cmd := exec.Command(bin, "-test.run=^$")
+	ctx, cancel := context.WithTimeout(context.Background(), childTimeout)
+	defer cancel()
+	cmd := exec.CommandContext(ctx, bin, "-test.run=^$")
 	cmd.Env = append(os.Environ(), "VERIF_C17_CHILD="+mode, "VERIF_C17_DIR="+dir, "VERIF_C17_HISTORY="+histPath,
 		"VERIF_C17_OUT="+out, "VERIF_C17_CRASH="+strconv.Itoa(target), "VERIF_FRAG=", "VERIF_JOURNAL=")
 	var stderr bytes.Buffer
@@ -395,6 +402,9 @@ func runChild(mode, dir, histPath, out string, target int) (int, string) {
 	err := cmd.Run()
 	if err == nil {
 		return 0, ""
+	}
+	if ctx.Err() != nil {
+		return -2, "child did not finish within " + childTimeout.String() + " (hang, or the machine is overloaded)"
 	}
 	var ee *exec.ExitError
 	if errors.As(err, &ee) {
@@ -697,6 +707,9 @@ func TestCrashEnumeration(t *testing.T) {
 		cdir := filepath.Join(base, "count")
 		cout := filepath.Join(base, "count.json")
 		if rc, msg := runChild("history", cdir, histPath, cout, -1); rc != 0 {
+			if rc != 3 {
+				t.Fatalf("harness: counting child rc=%d: %s", rc, msg)
+			}
 			// the history itself failed without any stop: a plain defect of the store
 			vk.Report(t, "C17:no-stop:history-failed", fmt.Sprintf("rc=%d %s", rc, msg), ctx.render(nil))
 			return
